@@ -23,7 +23,7 @@ RULE = (
     "a run = a pool of 6..9 aggregator instances (every aggregator except NashMTL, varied parameters), a pool of "
     "5 matrices (shapes incl. m=1, n=1, m>n; rank-deficient, zero and duplicate rows; scales 1e-3..1e3) of "
     "which two differ in row count and/or dtype (float32/float64) from the others -- instances without "
-    "row-bound tensors are called across row counts and dtypes -- and a history of 8..16 steps: call(A_i, J_j [, seed]), "
+    "row-bound tensors are called across row counts and dtypes, those configured with a weight/preference/leak tensor also meet matrices of the other dtype (`xcall`: acceptance not judged, after-effects are) -- and a history of 8..16 steps: call(A_i, J_j [, seed]), "
     "corrupt(A_i, J_j, F4 kind at a seeded position: NaN/+Inf/-Inf entry, 0-d/1-d/3-d tensor, row count "
     "contradicting weights/pref/leak/minimum), kernel-failure(A_i, J_j, F5 site in {svd, eigh, pinv, qp, clarabel}). "
     "After every step: the bytes of the input are unchanged; a clean call has shape (n,), the input dtype, is "
@@ -149,6 +149,10 @@ def generate(rng, tier, index):
         ji = rng.randrange(len(mats))
         a = pool[ai]
         if not _callable(a, mats[ji], m, dtype):
+            if _bound(a) and mats[ji]["m"] == m and mats[ji]["dtype"] != dtype and rng.random() < 0.5:
+                # S3 history: an instance configured with weights of one dtype meets a matrix of the other dtype
+                # (same row count). Whether that call is accepted is not judged; what it leaves behind is.
+                steps.append({"op": "xcall", "a": ai, "j": ji, "seed": rng.randrange(1 << 30)})
             continue
         mj = mats[ji]["m"]
         r = rng.random()
@@ -283,6 +287,31 @@ def execute(scn):
             if ai in faulted:
                 clean_after_fault = True
                 stats["reach.clean_call_after_fault_on_same_instance"] = stats.get("reach.clean_call_after_fault_on_same_instance", 0) + 1
+        elif st["op"] == "xcall":
+            before = _bytes(J)
+            torch.manual_seed(int(st["seed"]))
+            try:
+                out = A(J)
+                exc = None
+            except Exception as e:  # noqa: BLE001
+                out, exc = None, type(e).__name__
+            stats["api_calls"] = stats.get("api_calls", 0) + 1
+            stats["reach.cross_dtype_call_on_weight_bound_instance"] = stats.get("reach.cross_dtype_call_on_weight_bound_instance", 0) + 1
+            if _bytes(J) != before:
+                viols.append({"clause": "input_modified", "step": si, "details": {"agg": kind, "op": "xcall"}, "key": {"agg": kind}})
+                mats[ji] = matrix_form(torch.tensor(scn["mats"][ji]["J"], dtype=dtype), scn["mats"][ji].get("form", "plain"))
+            events.append([si, "xcall", kind, "raised:" + exc if exc else digest(_bytes(out))])
+            if exc is None:
+                stats["reach.cross_dtype_call_accepted"] = stats.get("reach.cross_dtype_call_accepted", 0) + 1
+                fresh = make_agg(a_spec, dtype0)
+                torch.manual_seed(int(st["seed"]))
+                try:
+                    ref = fresh(matrix_form(J.detach().clone().contiguous(), scn["mats"][ji].get("form", "plain")))
+                except Exception:  # noqa: BLE001 - acceptance of a mismatching dtype is not judged
+                    ref = None
+                if ref is not None and not _nan_aware_equal(out, ref):
+                    d = float((out.double() - ref.double()).abs().max()) if out.shape == ref.shape else None
+                    viols.append({"clause": "result_depends_on_history", "step": si, "details": {"agg": a_spec, "max_abs_diff": d, "cross_dtype": True, "randomised": kind in RANDOMISED}, "key": {"agg": kind}})
         elif st["op"] == "corrupt":
             f = st["fault"]
             if f["kind"] in ("nan", "posinf", "neginf") and (f["pos"][0] >= J.shape[0] or f["pos"][1] >= J.shape[1]):
